@@ -122,7 +122,7 @@ class Eval:
 
 def toint(v): return z3.If(v, 1, 0) if z3.is_bool(v) else v
 
-def ob_match(r, tier, seed, sty, rows, depth, bind_row=None, flat=False, force0=None):
+def ob_match(r, tier, seed, sty, rows, depth, bind_row=None, flat=False, force0=None, unit_result=False):
     W = e2.fresh_world(CRATES); c = Ctx(W)
     nl = rows * 4
     uses_enum = 'e' in json.dumps(sty)
@@ -135,7 +135,7 @@ def ob_match(r, tier, seed, sty, rows, depth, bind_row=None, flat=False, force0=
         return [y for x in v for y in enum_tags(x)] if isinstance(v, list) else []
     assumptions += [z3.And(t_ >= 0, t_ < len(ENUM[1])) for t_ in enum_tags(sv)]
     assumptions += [z3.And(v >= 0, v <= len(STRS)) for v in scrut_vars(sv) if z3.is_int(v) and str(v).endswith('_str')]
-    r.bounds = ('' if force0 is None else 'shard: the leaf patterns of row 0 are %s; ' % list(force0)) + 'every matrix of %d rows over a scrutinee of type %s; each pattern lazily wildcard / variable / literal with symbolic value / tuple (depth <= %d)%s; scrutinee value symbolic' % (rows, json.dumps(sty), depth, '; flat rows: every row is a tuple of wildcard-or-literal' if flat else '')
+    r.bounds = ('unit-typed match (every arm is `()`); ' if unit_result else '') + ('' if force0 is None else 'shard: the leaf patterns of row 0 are %s; ' % list(force0)) + 'every matrix of %d rows over a scrutinee of type %s; each pattern lazily wildcard / variable / literal with symbolic value / tuple (depth <= %d)%s; scrutinee value symbolic' % (rows, json.dumps(sty), depth, '; flat rows: every row is a tuple of wildcard-or-literal' if flat else '')
     r.assumptions = ['row bodies are distinct integer literals 100+r; a row that binds a variable returns that variable when it is an int, so a wrong binding changes the result',
                      'oracle: first arm in source order whose pattern matches; integer matrices without a catch-all must be rejected with a diagnostic; otherwise no match => missing()',
                      'gensym names, GlobalTypeEnv::new_empty (no enums/structs in scope)']
@@ -185,7 +185,10 @@ def ob_match(r, tier, seed, sty, rows, depth, bind_row=None, flat=False, force0=
         for row in range(rows):
             p, d, cond, binds = pat(sty, sv, depth, row)
             intb = [b for b in binds if b[1] == 'i']
-            if intb:
+            if unit_result:
+                # every arm is `()`: only "some arm runs" vs "the match fails" is observable
+                body = c.texpr('EPrim', value=c.prim('Unit', ms.UNIT), ty=c.ty('TUnit')); bval = z3.IntVal(0)
+            elif intb:
                 body = c.texpr('EVar', name=mkstr(intb[0][0]), ty=c.tyint(), astptr=ms.NONE()); bval = intb[0][2]
             else:
                 body = c.texpr('EPrim', value=c.prim('Int32', 100 + row), ty=c.tyint()); bval = z3.IntVal(100 + row)
@@ -199,7 +202,7 @@ def ob_match(r, tier, seed, sty, rows, depth, bind_row=None, flat=False, force0=
             em = te.fields[[f[0] for f in TEN.variants[0].fields].index('enums')]
             em.keys.append(Agg(TI.key, 0, [mkstr(ENUM[0])])); em.vals.append(edef)
         DI = W.tt.find_adt(['diagnostics', 'Diagnostics'], 'diagnostics')
-        h = {0: genv, 1: Agg('compiler::env::Gensym', 0, [Cell_(0)]), 2: Agg(DI.key, 0, [PyVec([])]), 3: c.tyint(), 4: PyVec(arms), 5: mkstr('s')}
+        h = {0: genv, 1: Agg('compiler::env::Gensym', 0, [Cell_(0)]), 2: Agg(DI.key, 0, [PyVec([])]), 3: c.ty('TUnit') if unit_result else c.tyint(), 4: PyVec(arms), 5: mkstr('s')}
         rws = ex.call('make_rows', [Ref(h, 5), Ref(h, 4)])
         core = ex.call('compile_rows', [Ref(h, 0), Ref(h, 1), Ref(h, 2), rws, Ref(h, 3), ms.NONE()])
         ndiag = len(h[2].fields[0].items)
@@ -237,7 +240,7 @@ def ob_match(r, tier, seed, sty, rows, depth, bind_row=None, flat=False, force0=
     for key, (what, p, wit) in found.items():
         r.findings.append(Finding(key, what, {'witness': wit}, True, 'decision tree produced by the real compile_rows on this matrix, evaluated on the model\'s scrutinee'))
 
-def obligations():
+def _obligations_matrix():
     TB = ('t', ['b', 'b']); TBI = ('t', ['b', 'i'])
     return [
         Ob('O6.1-bool-3', 'match compiler == first-match, bool scrutinee, 3 rows', ob_match, ('quick', 'thorough'), 1, dict(sty='b', rows=3, depth=0)),
@@ -255,6 +258,8 @@ def obligations():
         Ob('O6.1-boolint-4-flat', 'match compiler == first-match, (bool,int32), 4 rows of (wildcard|literal, wildcard|literal)', ob_match, ('quick', 'thorough'), 10, dict(sty=TBI, rows=4, depth=1, flat=True)),
         Ob('O6.1-intint-4-flat', 'match compiler == first-match, (int32,int32), 4 rows of (wildcard|literal, wildcard|literal)', ob_match, ('quick', 'thorough'), 10, dict(sty=('t', ['i', 'i']), rows=4, depth=1, flat=True)),
         Ob('O6.1-intintbool-3-flat', 'match compiler == first-match, (int32,int32,bool), 3 flat rows', ob_match, ('quick', 'thorough'), 10, dict(sty=('t', ['i', 'i', 'b']), rows=3, depth=1, flat=True)),
+        Ob('O6.1-enum-3-unit', 'unit-typed match on enum E: an unmatched variant must fail, not continue', ob_match, ('quick', 'thorough'), 10, dict(sty='e', rows=3, depth=1, unit_result=True)),
+        Ob('O6.1-boolint-2-unit', 'unit-typed match on (bool,int32), 2 rows', ob_match, ('quick', 'thorough'), 5, dict(sty=TBI, rows=2, depth=1, unit_result=True)),
         Ob('O6.1-str-3', 'match compiler == first-match, string scrutinee, 3 rows over the literals "a" "b" "c"', ob_match, ('quick', 'thorough'), 5, dict(sty='s', rows=3, depth=0)),
         Ob('O6.1-intstr-3-flat', 'match compiler == first-match, (int32,string), 3 flat rows', ob_match, ('quick', 'thorough'), 20, dict(sty=('t', ['i', 's']), rows=3, depth=1, flat=True)),
     ] + [
@@ -272,3 +277,7 @@ META = {
     'assumptions': ['enum/struct/string columns and the ANF/Go lowering of the tree are outside the claim', 'scrutinee evaluated once: see C09'],
     'trusted_base': ['mirsym MIR interpreter', 'library models listed per obligation', 'z3', 'core evaluator (40 lines) and first-match oracle'],
 }
+
+def obligations():
+    from props import pat_ob
+    return _obligations_matrix() + pat_ob.obligations_c06()
